@@ -109,6 +109,19 @@ def _gen_key(item):
     return k
 
 
+def _subst_atom(v, old, new):
+    """replace atom `old` by `new` in a value (the atom keeps its role, only its law changes)"""
+    if not isinstance(v, AP):
+        return v
+    if not any(g[0][0] == old for m in v.t for g in m):
+        return v
+    t = {}
+    for m, c in v.t.items():
+        nm = tuple(sorted((((new, g[0][1]) if g[0][0] == old else g[0], g[1]) for g in m), key=_gen_key))
+        t[nm] = t.get(nm, 0) + c
+    return _norm(t)
+
+
 def _mono_mul(m1, m2):
     if not m1:
         return m2
@@ -264,7 +277,53 @@ def eval_expr(e, env):
     raise Unsupported(f"bad expr {e!r}")
 
 
+class NeedSplit(Exception):
+    """a comparison of a Uniform atom with a rational threshold strictly inside its support: the engine splits the state"""
+
+    def __init__(self, atom, threshold):
+        super().__init__(f"split {atom} at {threshold}")
+        self.atom = atom
+        self.threshold = threshold
+
+
+_CURRENT_ATOMS = [None]
+
+
+def _uniform_bounds(v):
+    """(atom id, lo, hi) if v is a pure atom whose law is Uniform(lo, hi), else None"""
+    reg = _CURRENT_ATOMS[0]
+    if reg is None or not isinstance(v, AP):
+        return None
+    aid = v.is_pure_atom()
+    if aid is None:
+        return None
+    law = reg.law.get(aid)
+    if law is None or law[0] != "Uniform":
+        return None
+    return aid, law[1], law[2]
+
+
 def compare(a, cop, b):
+    if isinstance(a, AP) and not isinstance(b, AP):
+        ub = _uniform_bounds(a)
+        if ub is not None:
+            aid, lo, hi = ub
+            if lo < b < hi:
+                raise NeedSplit(aid, b)
+            # decided almost surely (boundaries have measure zero)
+            below = b <= lo   # the atom is above the threshold
+            if cop in (">", ">="):
+                return below
+            if cop in ("<", "<="):
+                return not below
+            if cop == "==":
+                return False
+            if cop == "/=":
+                return True
+    if isinstance(b, AP) and not isinstance(a, AP):
+        flip = {"<": ">", "<=": ">=", ">": "<", ">=": "<=", "==": "==", "/=": "/="}
+        if _uniform_bounds(b) is not None:
+            return compare(b, flip[cop], a)
     if isinstance(a, AP) or isinstance(b, AP):
         raise Unsupported("condition on a continuous value")
     if cop == "==":
@@ -377,12 +436,7 @@ class Engine:
         self.iteration += 1
         if self.scramble is not None:
             dist = self.scramble(self, dist)
-        run, keep = {}, {}
-        for st, p in dist.items():
-            if eval_cond(self.prog.guard, self._env(st)):
-                run[st] = p
-            else:
-                keep[st] = p
+        run, keep = self.split_on(dist, self.prog.guard)
         out = self.exec_block(self.prog.body, run, ("body",)) if run else {}
         for st, p in keep.items():
             out[st] = out.get(st, 0) + p
@@ -396,6 +450,34 @@ class Engine:
 
     def guard_holds(self, state):
         return eval_cond(self.prog.guard, self._env(state))
+
+    # -- conditions on Uniform atoms: split the state until the condition is decided
+    def split_on(self, dist, cond, extra_env=None):
+        """returns (true_part, false_part) of dist for cond; states are split at thresholds of Uniform atoms"""
+        tpart, fpart = {}, {}
+        work = list(dist.items())
+        guard = 0
+        while work:
+            st, p = work.pop()
+            guard += 1
+            if guard > 20 * self.max_states:
+                raise CapExceeded("too many condition splits")
+            _CURRENT_ATOMS[0] = self.atoms
+            try:
+                ok = eval_cond(cond, self._env(st))
+            except NeedSplit as ns:
+                law = self.atoms.law[ns.atom]
+                lo, hi, c = law[1], law[2], ns.threshold
+                for (a, b) in ((lo, c), (c, hi)):
+                    nid = self.atoms.register(("split", ns.atom, a, b), ("Uniform", a, b))
+                    nst = tuple(_subst_atom(x, ns.atom, nid) for x in st)
+                    work.append((nst, p * (b - a) / (hi - lo)))
+                continue
+            finally:
+                _CURRENT_ATOMS[0] = None
+            tgt = tpart if ok else fpart
+            tgt[st] = tgt.get(st, 0) + p
+        return tpart, fpart
 
     # -- execution
     def exec_block(self, stmts, dist, path):
@@ -415,12 +497,13 @@ class Engine:
             cond = s[3] if len(s) > 3 else None
             default = s[4] if len(s) > 4 else s[1]
             out = {}
-            for st, p in dist.items():
+            if cond is None or cond[0] == "true":
+                tagged = [(st, p, True) for st, p in dist.items()]
+            else:
+                tp, fp = self.split_on(dist, cond)
+                tagged = [(st, p, True) for st, p in tp.items()] + [(st, p, False) for st, p in fp.items()]
+            for st, p, ok in tagged:
                 env = self._env(st)
-                if cond is None or cond[0] == "true":
-                    ok = True
-                else:
-                    ok = eval_cond(cond, env)
                 if ok:
                     for val, q in self.eval_rhs(s[2], env, path):
                         self._emit(s[1], val)
@@ -449,15 +532,11 @@ class Engine:
             return out
         if k == "if":
             parts = [dict() for _ in s[1]]
-            rest = {}
-            for st, p in dist.items():
-                env = self._env(st)
-                for j, (c, _) in enumerate(s[1]):
-                    if eval_cond(c, env):
-                        parts[j][st] = p
-                        break
-                else:
-                    rest[st] = p
+            rest = dict(dist)
+            for j, (c, _) in enumerate(s[1]):
+                if not rest:
+                    break
+                parts[j], rest = self.split_on(rest, c)
             out = {}
             for j, (_, br) in enumerate(s[1]):
                 if parts[j]:
